@@ -115,6 +115,7 @@ def run_c19(tier):
     # the helpers the converters lean on for "sorted" and "one sound per object": density queue, tandem sort, legacy sort
     from checks import utilsrep
     utilsrep.run_utils(res, tier, binp)
+    utilsrep.run_ctrlpoints(res, tier, binp)
     # the pattern generators of the mania converter: model checking + trace validation of real conversions
     from checks import maniapat
     maniapat.run_mania(res, tier, binp)
